@@ -463,6 +463,13 @@ def _register_process_state():
     def _getcwd(ex, st, args, kwargs, node):
         return _glob(st, "cwd", "cwd@entry")
 
+    import sys as _sys
+
+    @intrinsic(_sys.exit)
+    def _sysexit(ex, st, args, kwargs, node):
+        # sys.exit(status) raises SystemExit(status); the status (possibly symbolic) is carried in the exception value
+        raise PathRaise(SystemExit, args[0] if args else None)
+
     @intrinsic(hash)
     def _hash(ex, st, args, kwargs, node):
         (x,) = args
@@ -604,9 +611,24 @@ def _sym_extreme(ex, st, sq: Seq, is_max):
         return memo[key][0]
     if getattr(ex.ctx, "no_let", 0) > 0:
         ex.ctx.fresh_in_dry_run = True
-    m = z3.Real(fresh_name("max" if is_max else "min"))
-    w = z3.Int(fresh_name("argext"))
     n = to_int(sq.n)
+    from . import contracts as _contracts
+    rel = _contracts._REL_MEMO
+    rkey = None
+    if rel is not None:
+        # self-composition: the extremum of the same array (same element term at a generic index, same length) is the
+        # same number in both runs
+        probe = sq.get(z3.Int("$memo_k"))
+        rkey = ("extreme", probe.sexpr() if is_sym(probe) else repr(probe), n.sexpr() if is_sym(n) else repr(n), is_max)
+        if rkey in rel:
+            m = rel[rkey]
+            st.assume(n >= 1)
+            memo[key] = (m, sq)
+            return m
+    m = z3.Real(fresh_name("max" if is_max else "min"))
+    if rkey is not None:
+        rel[rkey] = m
+    w = z3.Int(fresh_name("argext"))
     st.assume(n >= 1)
     j = z3.Int(fresh_name("q"))
     aj = to_real(sq.get(j))
